@@ -54,6 +54,11 @@ type runner struct {
 	g1, g2, g3 *cl.Gate
 	async      []*cl.Gate // handleInsufficientState goroutines parked at the insufficient:enter hook
 	cg2, cg3   *cl.Gate   // periodic position check parked before / after its Broker.History call
+	pop        bool       // the cache-empty handler populates the channel (publishes from inside the handler)
+	gp, g4     *cl.Gate   // subscriber parked inside the cache-empty handler / after the second cache read
+	popTag     string
+	popID      int
+	reads      int // Broker.History calls of the subscribe command seen so far
 	tickDone   chan struct{}
 	subDone    chan struct{}
 	subID      uint32
@@ -184,6 +189,10 @@ func newWorker(histSize, recLimit int) (*worker, error) {
 			}
 		}
 		if r := w.runner(ch); r != nil && r.g3 != nil {
+			r.mu.Lock()
+			r.reads++
+			second := r.reads == 2 && r.g4 != nil
+			r.mu.Unlock()
 			// what the stream retained at this moment (independent full read; the subscriber is parked, nothing moves)
 			all, _, _ := w.gb.Inner.History(ch, centrifuge.HistoryOptions{Filter: centrifuge.HistoryFilter{Limit: -1}})
 			r.mu.Lock()
@@ -193,7 +202,11 @@ func newWorker(histSize, recLimit int) (*worker, error) {
 				r.winAtRead = append(r.winAtRead, int(p.Offset))
 			}
 			r.mu.Unlock()
-			r.g3.Arrive(gateTimeout)
+			if second {
+				r.g4.Arrive(gateTimeout) // the read after the cache-empty handler populated the channel
+			} else {
+				r.g3.Arrive(gateTimeout)
+			}
 		}
 	}
 	gb.RewritePosition = func(ch string, sp centrifuge.StreamPosition) centrifuge.StreamPosition {
@@ -213,6 +226,38 @@ func newWorker(histSize, recLimit int) (*worker, error) {
 		return false
 	}
 	env.Node.SetBroker(gb)
+	env.Node.OnCacheEmpty(func(e centrifuge.CacheEmptyEvent) (centrifuge.CacheEmptyReply, error) {
+		r := w.runner(e.Channel)
+		if r == nil || !r.pop || r.gp == nil {
+			return centrifuge.CacheEmptyReply{}, nil
+		}
+		// the model parks the subscriber here only when the first read found nothing and did not recover
+		since := vh.Map(r.cfg["since"])
+		r.mu.Lock()
+		same := vh.Int(since["off"]) > 0 && vh.Int(since["off"]) == r.topAtRead && vh.Str(since["ep"]) == "e1"
+		r.mu.Unlock()
+		if same {
+			return centrifuge.CacheEmptyReply{}, nil
+		}
+		r.gp.Arrive(gateTimeout)
+		r.mu.Lock()
+		tag, id := r.popTag, r.popID
+		r.mu.Unlock()
+		if id == 0 {
+			return centrifuge.CacheEmptyReply{}, nil
+		}
+		r.mu.Lock()
+		r.curID = id
+		r.mu.Unlock()
+		opts := []centrifuge.PublishOption{centrifuge.WithHistory(w.hist, time.Minute)}
+		if tag != "none" {
+			opts = append(opts, centrifuge.WithTags(map[string]string{"t": tag}))
+		}
+		if _, err := w.env.Node.Publish(e.Channel, []byte(strconv.Itoa(id)), opts...); err != nil {
+			return centrifuge.CacheEmptyReply{}, nil
+		}
+		return centrifuge.CacheEmptyReply{Populated: true}, nil
+	})
 	env.OnSubscribe = func(_ *centrifuge.Client, e centrifuge.SubscribeEvent, cb centrifuge.SubscribeCallback) {
 		r := w.runner(e.Channel)
 		opts := centrifuge.SubscribeOptions{}
@@ -514,10 +559,13 @@ func tagsFilter() *protocol.FilterNode {
 
 func (w *worker) run(bi int, beh []map[string]any, res *vh.Result) {
 	cfg := vh.Map(beh[0]["cfg"])
-	r := &runner{w: w, ch: fmt.Sprintf("ss%d_%d", vh.Seed(), bi), cfg: cfg, kind: vh.Str(cfg["kind"]), filt: vh.Bool(cfg["filt"]), sf: vh.Bool(cfg["sf"]), auto: vh.Bool(cfg["auto"]), noep: vh.Bool(cfg["noep"]), neg: vh.Bool(cfg["neg"]), server: vh.Bool(cfg["server"]),
+	r := &runner{w: w, ch: fmt.Sprintf("ss%d_%d", vh.Seed(), bi), cfg: cfg, kind: vh.Str(cfg["kind"]), filt: vh.Bool(cfg["filt"]), sf: vh.Bool(cfg["sf"]), auto: vh.Bool(cfg["auto"]), noep: vh.Bool(cfg["noep"]), neg: vh.Bool(cfg["neg"]), pop: vh.Bool(cfg["pop"]), server: vh.Bool(cfg["server"]),
 		deliveries: map[int]delivery{}, g1: cl.NewGate()}
 	if r.kind == "pos" || r.kind == "rec" || r.kind == "cache" {
 		r.g2, r.g3 = cl.NewGate(), cl.NewGate()
+	}
+	if r.pop {
+		r.gp, r.g4 = cl.NewGate(), cl.NewGate()
 	}
 	w.runners.Store(r.ch, r)
 	defer w.runners.Delete(r.ch)
@@ -678,7 +726,27 @@ func (w *worker) run(bi int, beh []map[string]any, res *vh.Result) {
 			if !r.g3.WaitArrived(gateTimeout) {
 				drift("subscriber did not return from Broker.History")
 			}
+		case "SubToHandler":
+			r.g3.Release()
+			if !r.gp.WaitArrived(gateTimeout) {
+				drift("subscriber did not reach the cache-empty handler")
+			}
+		case "SubPopulate":
+			r.mu.Lock()
+			r.popTag, r.popID = vh.Str(step["tag"]), vh.Int(step["id"])
+			r.mu.Unlock()
+			r.tags = append(r.tags, vh.Str(step["tag"]))
+			r.gp.Release()
+			if !r.g4.WaitArrived(gateTimeout) {
+				drift("no second cache read after the handler populated the channel")
+			}
+			nontrivial = true
+		case "SubNoPopulate":
+			r.gp.Release() // popID == 0: the handler answers not populated; the subscriber goes on without a second read
 		case "SubFinish":
+			if r.g4 != nil {
+				r.g4.Release()
+			}
 			if r.g3 != nil {
 				r.g3.Release()
 			} else {
@@ -799,7 +867,7 @@ func (w *worker) run(bi int, beh []map[string]any, res *vh.Result) {
 			break
 		}
 		pc := vh.Str(st["pc"])
-		parked := pc == "g1" || pc == "g2" || pc == "g3"
+		parked := pc == "g1" || pc == "g2" || pc == "g3" || pc == "gp" || pc == "g4"
 		if parked {
 			continue
 		}
@@ -876,6 +944,10 @@ func (w *worker) run(bi int, beh []map[string]any, res *vh.Result) {
 	if r.g2 != nil {
 		r.g2.Release()
 		r.g3.Release()
+	}
+	if r.gp != nil {
+		r.gp.Release()
+		r.g4.Release()
 	}
 	if r.subDone != nil {
 		select {
